@@ -7,7 +7,7 @@
    A valuation [val : nat -> Q] gives every column a value.  [order] is the elimination order; the
    theorems hold for EVERY order that eliminates every variable ([order_ok]). *)
 From Coq Require Import List Arith QArith.
-From AIT Require Import Base.Qx C15.Model C15.Spec C15.ProofsBase C15.Proofs.
+From AIT Require Import Base.Qx C15.Model C15.Spec C15.ProofsBase C15.ProofsGraph C15.ProofsVE C15.ProofsSetup C15.Proofs C15.ProofsMdp.
 Import ListNotations.
 
 (* The oracle's exact checker: the max-norm error over all joint assignments is below phi exactly
@@ -60,6 +60,36 @@ Theorem factored_optimum_eq_flat : forall S C b addConst order (m : Q),
    <-> (forall w phi, flat_feasible S C b addConst w phi -> m <= phi)).
 Proof. exact flp_optimum_lemma. Qed.
 Print Assumptions factored_optimum_eq_flat.
+
+(* STRETCH, PARTIAL (factored-MDP LinearProgramming::solveLP): the elimination part — one chain,
+   "newFactor >= sum of rules" per eliminated assignment, final row "sum of final factors <= 0" as
+   repaired by fixes/C15-mdp-lp-final-factors.patch — for ANY initial rule graph g0 over the joint
+   (state, action) variables: the generated system is satisfiable by some valuation of the new columns
+   exactly when the graph's total value is <= 0 at EVERY joint assignment, for every elimination order.
+   Full statement (not proved): with g0 = the rules of  R(s,a) + sum_k w_k (gamma g_k(s,a) - h_k(s))
+   built by [mlp_setup], [gval S val0 g0 x] is that expression, i.e. the flat constraint
+   V_w(s) >= R(s,a) + gamma sum_s' P(s'|s,a) V_w(s').  ([gval] = sum over the graph's nodes of the
+   rules matching x; [galign]/[gin]/[gdone] = column allocation and tag well-formedness.) *)
+Theorem mdp_lp_elimination_eq_pointwise_partial : forall S g0 n0 rows0 order val0,
+  Forall (fun s => (0 < s)%nat) S -> order_ok S order ->
+  gin S g0 -> gdone [] g0 -> galign 1 n0 g0 [] -> rows_lt n0 rows0 -> feasible val0 rows0 ->
+  let st := run_ve 1 S (g0, [], n0, rows0) order in
+  ((exists val, agree n0 val val0 /\ feasible val (st_rows st ++ mlp_result_rows (st_fin st)))
+   <-> (forall x, in_space S x -> gval S val0 g0 x <= 0)).
+Proof. exact ve_projection_lemma. Qed.
+Print Assumptions mdp_lp_elimination_eq_pointwise_partial.
+
+(* The code as it stands in the unrepaired tree (one row "f <= 0" per final factor) cuts off a
+   flat-feasible point: two independent components with maxima +1 and -1 (total 0 <= 0 at the only
+   joint assignment) have no satisfying valuation of the new columns, while the repaired final row does. *)
+Theorem mdp_lp_final_rows_unrepaired_refuted :
+  let S := [1; 1]%nat in let order := [0; 1]%nat in
+  let st := run_ve 1 S (cex_g0, [], 2%nat, []) order in
+  (forall x, in_space S x -> gval S cex_val0 cex_g0 x <= 0) /\
+  (forall val, agree 2 val cex_val0 -> ~ feasible val (st_rows st ++ mlp_result_rows_orig (st_fin st))) /\
+  (exists val, agree 2 val cex_val0 /\ feasible val (st_rows st ++ mlp_result_rows (st_fin st))).
+Proof. exact mlp_orig_refuted_lemma. Qed.
+Print Assumptions mdp_lp_final_rows_unrepaired_refuted.
 
 (* hypotheses are satisfiable on a non-trivial input: two overlapping bases + constant basis over a
    2 x 3 space, a target on one factor, the order (1, 0); (w, phi) = (0, 5) is flat-feasible *)
